@@ -21,6 +21,15 @@ Lanes registered while the agent runs (the `late` rig: a harness-implemented `Ag
                                                           initialisation was complete: `InitComplete` received and
                                                           answered, or — transient — at once)
 
+Failure of the store's id lookup (`NodePersistence::id_for` → `AgentPersistence::store_id`) with an error other than
+`NoStoreAvailable`, injected at the n-th lookup of the first start (`end idfail n`) or of the restart (`rfail n`):
+  idfail <name>                                        ;; ok      the lookup for item <name> failed
+  restartfailed                                        ;; ok      the restarted agent did not come up (the start
+                                                                  failed / the restore did not complete in the time box)
+The agent must then NOT run (no `on_start`, no lane initialised, nothing stored), the failure must be reported
+(`ended failed-restoration | persistence-failure`), and the next start restores everything. A restart that does not
+come up without an injected failure is a violation (`restart-did-not-complete`).
+
 The model answers every line from the store operations seen so far: the state of an item after a (re)start is
 `restore ∘ fold` of the logged store operations, a transient item's state is its default. The monitor decides C05
 on the observed log alone.
@@ -99,6 +108,9 @@ def LSt.step (s : LSt) (line : String) : LSt × String :=
   | ["crash"] => (s, "ok")
   | ["storefail"] => (s, "ok")
   | ["restart"] => (s, "ok")
+  | ["restartfailed"] => (s, "ok")
+  | ["idfail", _] => (s, "ok")
+  | ["rfail", _] => (s, "ok")
   | ["ended", _] => (s, "ok")
   | ["item", name, kind, p, d] =>
     match bytesOfHex d with
@@ -146,6 +158,8 @@ structure Mon where
   /-- the states every item must come back with: snapshot of `restore ∘ fold` at the restart -/
   expect : List (String × String) := []
   failed : Bool := false
+  /-- an id lookup of this incarnation failed: the agent must not run (any item, as transient or otherwise) -/
+  idfailed : Bool := false
   crashed : Bool := false
   ended : Option String := none
 
@@ -168,7 +182,8 @@ def Mon.storeLine (m : Mon) (line : String) (rest : List String) (verb : String)
     match m.st.item? name with
     | none => (m, some "store-operation-for-unknown-item")
     | some it =>
-      if !it.persistent then (m, some "store-operation-for-transient-item")
+      if m.idfailed then (m, some "item-ran-transient-after-id-failure")
+      else if !it.persistent then (m, some "store-operation-for-transient-item")
       else if (it.kind = .value) != (verb == "put") then (m, some "store-operation-of-wrong-kind")
       else
         let before := m.st.itemState it
@@ -211,23 +226,33 @@ def Mon.step (m : Mon) (line : String) (out : String) : Mon × Option String :=
   | ["storefail"] => ({ m with failed := true }, none)
   | ["crash"] => ({ m with crashed := true }, none)
   | ["ended", how] => ({ m with ended := some how }, none)
+  | ["idfail", _] => ({ m with idfailed := true }, none)
+  | ["restartfailed"] =>
+    -- without an injected failure the restarted agent has to come up and restore
+    (m, if m.idfailed then none else some "restart-did-not-complete")
   | ["restart"] =>
     let m' := { m with restarted := true, quiet := true, ended := none, crashed := false, failed := false,
+                       idfailed := false,
                        expect := m.st.items.map fun it => (it.name, m.st.taggedState it) }
     if m.crashed then (m', none)
+    else if m.idfailed then
+      (m', if m.ended == some "failed-restoration" || m.ended == some "persistence-failure" then none
+           else some "id-failure-not-reported")
     else if m.failed then
       (m', if m.ended == some "persistence-failure" then none else some "store-failure-not-reported")
     else (m', if m.ended == some "ok" then none else some "agent-did-not-stop-cleanly")
   | ["start"] =>
-    if out != model.2 then (m, some (if m.restarted then "state-at-on-start-differs-from-store" else "initial-state-not-default"))
+    if m.idfailed then (m, some "item-ran-transient-after-id-failure")
+    else if out != model.2 then (m, some (if m.restarted then "state-at-on-start-differs-from-store" else "initial-state-not-default"))
     else (m, none)
   | ["added", _, how] =>
-    -- registration can only fail when the runtime has gone (a store failure ended the write task)
-    (m, if how == "ok" || m.failed then none else some "lane-registration-failed")
+    -- registration can only fail when the runtime has gone (a store / id failure ended it)
+    (m, if how == "ok" || m.failed || m.idfailed then none else some "lane-registration-failed")
   | ["init", name] =>
     match m.st.item? name with
     | some it =>
-      if out == model.2 then (m, none)
+      if m.idfailed then (m, some "item-ran-transient-after-id-failure")
+      else if out == model.2 then (m, none)
       else if !it.persistent then (m, some "transient-item-not-at-default")
       else (m, some "state-at-registration-differs-from-store")
     | none => (m, some "unparsable")
